@@ -56,6 +56,10 @@ PROPS = {
     "C15": {"suites": ["names"],
             "rule": "legal names: every length (quick: all 13-boundaries +-1 and 1..12, 127..129, 254, 255; thorough: 1..255), spaces, dots, case mixes, "
                     "non-OEM and non-BMP characters, alias-collision families; x code pages x preserve_case; live and after remount"},
+    "C16": {"suites": ["identity", "foreign", "codec"],
+            "rule": "identity: builder images with FAT/boot garbage (values in entries beyond the cluster count, bad marks, reserved FAT32 bits, random boot "
+                    "code/OEM) for every FAT12 size 1..12 sectors + FAT16/32 + sector sizes; (1) mount+close lazy and eager: byte compare; (2) a session with "
+                    "operations: boot sector, out-of-data-area FAT entries, bad marks, reserved bits, FAT copies, untouched files compared"},
     "C20": {
         "suites": ["codec"],
         "rule": "codec: exhaustive over all 65536 date and time words, all calendar dates 1980-2107, all 86400 times of day; "
@@ -138,6 +142,11 @@ MANIFEST_TEXT = {
                     "Naming decisions of create/makedir compared with Model.Names.newName; real create/exists/listdir/remount oracle over legal names.",
             "note": _NOTE + "CharEnv (upper/encode/decode/isspace) is supplied by CPython per name. Known findings D2 (lead byte 0xE5), D26 (preserve_case=False lookup).",
             "technique": "Lean 4 proof over Model.Dir/Model.Names + naming correspondence + real-filesystem oracle"},
+    "C16": {"text": "Theorems: writing serialise(parse(FAT region)) over the region reproduces it for FAT12 of every length (all residues mod 3), FAT16, FAT32 incl. "
+                    "reserved bits; repacking parsed boot-sector fields reproduces the bytes; translated flag arithmetic restores a clean flag byte. Whole-image "
+                    "identity and the frame after operations judged on builder images with arbitrary garbage.",
+            "note": _NOTE + "Valid images carry 0 in the half FAT12 entry at the end of a table whose length is 2 mod 3 (not an entry).",
+            "technique": "Lean 4 proof of parse/serialise identity on whole tables and sectors + byte-level diff on real sessions"},
     "C20": {
         "text": "Lean theorems, for all inputs: date/time decoders total and inverse to the *translated* serialize_date/serialize_time; "
                 "FAT12/16/32 parse/serialise mutually inverse for every table length (FAT12 tail residues, FAT32 reserved bits) and equal to the "
